@@ -344,6 +344,23 @@ fn c08_group(s: &mut Sink, eng: Eng, c: &C08Case) {
                 if LOG_LEN.load(Ordering::Relaxed) != 0 {
                     s.violation(&format!("{}/{class}/helper-ran-during-compile", eng.name()), "a helper was invoked while compiling".into(), rp.clone());
                 }
+                // the natural next step: register the helper, compile again (same VM object, same
+                // thread) - the refused compilation must have left nothing behind
+                if *args == tuples[0] && c.depth == 0 {
+                    vmx.register_helper(c.id, stub(2)).unwrap();
+                    match catch(|| vmx.compile(eng)) {
+                        Ok(Ok(())) => {
+                            pkt.fill(&[0u8; 64]);
+                            log_reset();
+                            let out = vmx.exec_out(eng, pkt.raw(), vm::empty_raw());
+                            let log = log_get();
+                            if !matches!(out, Out::Ok(_)) || log.last().map(|l| (l.0, l.1)) != Some((2u8, *args)) {
+                                s.violation(&format!("{}/{class}/after-refused-compilation:wrong-helper", eng.name()), format!("after a refused compilation the helper was registered and the program compiled again: execution gave {out:?}, invocations {:?}", log.iter().map(|l| l.0).collect::<Vec<_>>()), rp.clone());
+                            }
+                        }
+                        Ok(Err(e)) | Err(e) => s.violation(&format!("{}/{class}/after-refused-compilation:compile-failed", eng.name()), format!("after a refused compilation the helper was registered; compiling again: {e}"), rp.clone()),
+                    }
+                }
                 continue;
             }
             (Ok(Err(e)), _, _) => {
